@@ -620,7 +620,7 @@ def check_measurements(ctx, top):
     ctx.need(lp is not None and isinstance(lp.target, ast.Tuple), "measure_qubits: no loop in the overwriting case")
     N1 = dict(N)
     N1[lp.target.elts[0].id] = "j"
-    shape.match_stmts(ctx, "R13.15", q + ":overwrite", lp.body, ["i_bit = bits[bit_offset + j]", "i_qubit = qubits[qubit_offset + j]", "tk_circ.Measure(i_qubit, i_bit)"], N1, mod=TK, node=lp, sig="measure-overwrite", exact=True,
+    shape.match_stmts(ctx, "R13.15", q + ":overwrite", lp.body, ["i_bit = bits[bit_offset + j]", "i_qubit = qubits[qubit_offset + j]", "tk_circ.Measure(i_qubit, i_bit)"], N1, mod=TK, node=lp, sig="measure-overwrite",
                       required="the j-th qubit of the box is measured into the j-th bit of the box: Measure(qubit, bit)")
     main = next((s for s in mq.body if isinstance(s, ast.For)), None)
     ctx.need(main is not None and isinstance(main.target, ast.Tuple), "measure_qubits: no loop over the measured wires")
